@@ -169,9 +169,11 @@ def run(tier, seed, replay=None):
                      "null_scalars", "matrix_vehicle_ghost"]
     per_kind = 8 if tier == "quick" else 150
     for kname in kinds_in_turn:
-        for j in range(per_kind):
+        for j in range(per_kind * (4 if kname == "huge_penalty" else 1)):
             base, opts, feats = GF.gen_full(rng, "small")
             inp, kind = GF.mutate(rng, base, only=kname)
+            if kname == "huge_penalty":
+                opts["objectives"]["late_arrival_penalty"] = 1.0       # the term has to be installed for the penalty to count
             cid = "k%s%d" % (kname, j)
             meta[cid] = (inp, opts, kind)
             blocks.append((cid, GF.case_lines(inp, opts, dict(settings))))
